@@ -189,3 +189,23 @@ Proof.
   intros Hm H j Hj. rewrite (H (S j)) by lia. rewrite (H j) by lia.
   rewrite Nat2Z.inj_succ. unfold Z.succ. rewrite Qpower_plus by exact Hm. change (mult c ^ 1)%Q with (mult c). ring.
 Qed.
+
+Lemma cur_at_closed_form (c : cfg) (a : nat -> Z) k :
+  (0 < mult c)%Q -> (1 <= mult c)%Q -> 0 <= initial c <= max_interval c ->
+  a O = initial c ->
+  (forall j, (j <= k)%nat -> (inject_Z (a j) == inject_Z (initial c) * mult c ^ Z.of_nat j)%Q) ->
+  cur_at c (S k) = Z.min (a k) (max_interval c).
+Proof.
+  intros Hm H1 Hi Ha0 Hp. apply (cur_at_closed c Hm ltac:(lia) a H1 Hi Ha0 k).
+  apply power_sequence; [|exact Hp]. intros E. rewrite E in Hm. exact (Qlt_irrefl 0 Hm).
+Qed.
+
+(** in general (any Multiplier >= 1, truncation included) the intervals never decrease below
+    the cap and never exceed it *)
+Lemma cur_at_le_max (c : cfg) k : (0 < mult c)%Q -> 0 <= initial c <= max_interval c ->
+  cur_at c k <= max_interval c.
+Proof.
+  intros Hm Hi. destruct k as [|k]; [cbn; lia|]. induction k as [|k IH]; [cbn; lia|].
+  change (cur_at c (S (S k))) with (incr_interval c (cur_at c (S k))).
+  apply incr_le_max; [exact Hm|]. apply cur_at_nonneg; [exact Hm|lia|lia].
+Qed.
